@@ -16,6 +16,8 @@ CTX = [
     {"date": "2025-01-15", "field": {"memo": "REF 77", "type": "WIRE"}, "source": "Amex"},
     {"date": "2024-12-31", "field": {"memo": "", "type": "ach"}, "source": "chase"},
 ]
+# an additional context whose custom field holds runs of blanks and a tab (used by C02)
+CTX_WS = {"date": "2025-02-01", "field": {"memo": "two  blanks\tand tab", "type": "Wire  Fast"}, "source": "Amex  Gold"}
 AMOUNTS = [-50.0, 100.0, 100.25]
 
 
